@@ -459,3 +459,157 @@ def storable_attributes(prog, rule, rels=None):
                 continue
             rule.ok(cons, '%s.%s is storable on a new %s' % (n.value.id, n.attr, c.name), f, n)
     return n_sites
+
+
+# ---------------------------------------------------------------------------------------------------------------
+# definite assignment: a local read on some path on which it was never assigned
+
+def _bound_names(t):
+    out = []
+    for x in ast.walk(t):
+        if isinstance(x, ast.Name) and isinstance(x.ctx, (ast.Store,)):
+            out.append(x.id)
+    return out
+
+
+def _loads(e, skip_scopes=True):
+    """Name loads evaluated when e is evaluated (not inside lambdas / nested defs; comprehension variables excluded)"""
+    out = []
+
+    def rec(x, bound):
+        if isinstance(x, (ast.Lambda, ast.FunctionDef, ast.AsyncFunctionDef, ast.ClassDef)):
+            return
+        if isinstance(x, (ast.ListComp, ast.SetComp, ast.GeneratorExp, ast.DictComp)):
+            b2 = set(bound) | {w.target.id for w in ast.walk(x) if isinstance(w, ast.NamedExpr)}
+            for i, g in enumerate(x.generators):
+                rec(g.iter, b2 if i else bound)
+                b2 |= set(_bound_names(g.target))
+                for c in g.ifs:
+                    rec(c, b2)
+            for fld in ('elt', 'key', 'value'):
+                if hasattr(x, fld):
+                    rec(getattr(x, fld), b2)
+            return
+        if isinstance(x, ast.Name):
+            if isinstance(x.ctx, ast.Load) and x.id not in bound:
+                out.append(x)
+            return
+        for c in ast.iter_child_nodes(x):
+            rec(c, bound)
+    rec(e, set())
+    return out
+
+
+def possibly_unassigned(f, rule=None):
+    """[(name, use_node)] for every read of a local of f that some CFG path reaches without any assignment of it.
+    Path-insensitive (two tests of the same condition are not correlated)."""
+    from .cfg import CFG, header_exprs
+    fn = f.node
+    a = fn.args
+    params = {x.arg for x in a.posonlyargs + a.args + a.kwonlyargs}
+    if a.vararg:
+        params.add(a.vararg.arg)
+    if a.kwarg:
+        params.add(a.kwarg.arg)
+    declared = set()
+    for n in walk_no_nested(fn):
+        if isinstance(n, (ast.Global, ast.Nonlocal)):
+            declared |= set(n.names)
+    locals_ = set()
+    for n in walk_no_nested(fn):
+        if isinstance(n, ast.Name) and isinstance(n.ctx, (ast.Store, ast.Del)):
+            locals_.add(n.id)
+        elif isinstance(n, (ast.FunctionDef, ast.AsyncFunctionDef, ast.ClassDef)) and n is not fn:
+            locals_.add(n.name)
+        elif isinstance(n, (ast.Import, ast.ImportFrom)):
+            for al in n.names:
+                locals_.add((al.asname or al.name).split('.')[0])
+        elif isinstance(n, ast.ExceptHandler) and n.name:
+            locals_.add(n.name)
+    # comprehension targets are not function locals
+    locals_ -= declared
+    locals_ -= params
+    if not locals_:
+        return []
+    cfg = CFG(fn)
+
+    def defs_uses(nd):
+        """(uses evaluated at nd, names bound at nd [on the True edge only for a for-header], names deleted)"""
+        uses, defs, dels = [], [], []
+        st = nd.ast
+        if nd.kind == 'test':
+            e = st.subject if isinstance(st, ast.Match) else st.test
+            uses += _loads(e)
+            defs += [x.target.id for x in ast.walk(e) if isinstance(x, ast.NamedExpr)]
+        elif nd.kind == 'for':
+            uses += _loads(st.iter)
+            defs += _bound_names(st.target)
+        elif nd.kind == 'with':
+            for it in st.items:
+                uses += _loads(it.context_expr)
+                if it.optional_vars is not None:
+                    defs += _bound_names(it.optional_vars)
+        elif nd.kind == 'except':
+            if st.type is not None:
+                uses += _loads(st.type)
+            if st.name:
+                defs.append(st.name)
+        elif nd.kind in ('stmt', 'return', 'raiseS'):
+            if isinstance(st, (ast.FunctionDef, ast.AsyncFunctionDef, ast.ClassDef)):
+                defs.append(st.name)
+                for d in st.decorator_list:
+                    uses += _loads(d)
+            elif isinstance(st, (ast.Import, ast.ImportFrom)):
+                defs += [(al.asname or al.name).split('.')[0] for al in st.names]
+            elif isinstance(st, ast.Assign):
+                uses += _loads(st.value)
+                for t in st.targets:
+                    for x in ast.walk(t):
+                        if isinstance(x, ast.Name) and isinstance(x.ctx, ast.Store):
+                            defs.append(x.id)
+                    uses += [x for x in _loads(t)]
+            elif isinstance(st, ast.AugAssign):
+                uses += _loads(st.value)
+                if isinstance(st.target, ast.Name):
+                    uses.append(st.target)
+                    defs.append(st.target.id)
+                else:
+                    uses += _loads(st.target)
+            elif isinstance(st, ast.AnnAssign):
+                if st.value is not None:
+                    uses += _loads(st.value)
+                    defs += _bound_names(st.target)
+            elif isinstance(st, ast.Delete):
+                for t in st.targets:
+                    if isinstance(t, ast.Name):
+                        dels.append(t.id)
+                    else:
+                        uses += _loads(t)
+            else:
+                uses += _loads(st)
+            defs += [x.target.id for x in ast.walk(st) if isinstance(x, ast.NamedExpr)] if not isinstance(st, (ast.FunctionDef, ast.AsyncFunctionDef, ast.ClassDef)) else []
+        return uses, defs, dels
+    info = {nd.id: defs_uses(nd) for nd in cfg.nodes}
+    ALL = frozenset(locals_)
+    IN = {nd.id: ALL for nd in cfg.nodes}
+    IN[cfg.entry.id] = frozenset()
+    work = [cfg.entry]
+    seen_ = {cfg.entry.id}
+    while work:
+        nd = work.pop()
+        uses, defs, dels = info[nd.id]
+        out_full = (IN[nd.id] | set(defs)) - set(dels)
+        for s, lab in nd.succ:
+            if lab == 'exc':
+                o = IN[nd.id]                       # the statement may not have completed
+            elif nd.kind == 'for' and lab is False:
+                o = IN[nd.id] - set(dels)           # zero iterations: the target is not bound
+            else:
+                o = out_full
+            new = IN[s.id] & o if s.id in seen_ else frozenset(o)
+            if s.id not in seen_ or new != IN[s.id]:
+                seen_.add(s.id)
+                IN[s.id] = frozenset(new)
+                work.append(s)
+    return [(x.id, x, nd) for nd in cfg.nodes if nd.id in seen_ or nd is cfg.entry for x in info[nd.id][0]
+            if x.id in locals_ and x.id not in IN[nd.id]]
